@@ -57,6 +57,8 @@ def roots(tier, seed):
                                        and npt == 2 * nf + 1 and where == "in")
                                 if tier == "quick":
                                     dev = dev and n == 1 and not scale
+                                else:
+                                    dev = dev and n <= 2
                                 case["explore"] = 1 if dev else 0
                                 out.append(case)
     return alpha.permute(out, seed)
